@@ -9,6 +9,8 @@ var Registry = map[string]func(*ev.Run){
 	"C03": C03,
 	"C04": C04,
 	"C07": C07,
+	"C08": C08,
 	"C10": C10,
+	"C16": C16,
 	"C14": C14,
 }
